@@ -28,7 +28,7 @@ var boolVars = []string{"convert-meta", "input-meta", "output-meta", "enable-bra
 // macroKeys are the sequences random macros are bound to and made of: a macro may contain its own
 // sequence, or that of another macro that contains it.
 var macroKeys = []string{"a", "x", "\\C-t", "\\ea", "\\C-x\\C-a", "(", "\\e1"}
-var macroParts = []string{"a", "x", "\\C-t", "\\ea", "\\C-x\\C-a", "(", "\\e1", "b", " ", "\\C-a", "\\C-k", "\\C-y", "\\C-xe", "\\C-x(", "\\C-x)", "\\eb", "\\C-r", "\\C-m", "\\e", "1", "\\C-_"}
+var macroParts = []string{"a", "x", "\\C-t", "\\ea", "\\C-x\\C-a", "(", "\\e1", "b", " ", "\\C-a", "\\C-k", "\\C-f", "\\C-xe", "\\C-x(", "\\C-x)", "\\eb", "\\C-r", "\\C-m", "\\e", "1", "\\C-_"}
 
 // randMacros: inputrc lines binding macros (possibly running themselves) and do-lowercase-version
 func randMacros(r *rand.Rand) string {
@@ -120,6 +120,14 @@ func init() {
 				for i := range script {
 					if r.Intn(2) == 0 {
 						script[i] = extra[r.Intn(len(extra))]
+					}
+					// A macro that runs itself is stopped after 32 nested runs; with a command that doubles the line in
+					// it (copy-prev-shell-word, or a kill followed by two yanks / puts) those runs are 2^32 times the
+					// work: exponential work that the configuration asks for, not a spin. Such keys stay out of the
+					// sessions in which macros can run themselves.
+					switch script[i] {
+					case "\x1bm", "\x19", "\x1by", "p", "P":
+						script[i] = "\x06"
 					}
 				}
 				cls += "/macros"
